@@ -8,6 +8,8 @@ import (
 	"go/types"
 )
 
+var closureSeq int
+
 type unsupported struct{ msg string }
 
 func (x *Exec) unsup(f string, a ...any) {
@@ -70,7 +72,9 @@ func (x *Exec) toTerm(v Val, t types.Type) *Term {
 		x.unsup("interior pointer (%s) cannot be stored in memory or passed opaquely", x.env.te.typeStr(p.Typ))
 	case *ClosureVal:
 		if p.ID == nil {
-			p.ID = fresh("closure", sortInt)
+			// a unique non-zero identity (function values created by closures are never nil)
+			closureSeq++
+			p.ID = mkInt(int64(1000000 + closureSeq))
 		}
 		x.closures[p.ID] = p
 		return p.ID
